@@ -7,12 +7,12 @@ from lib import boundsrt as B
 def run(tier, seed, replay):
     chk = common.Check("C04", tier, seed)
     st = common.check_proofs(chk, "C04", extra_dirs=("Fmt", "Gen", "C05"))
-    n = 1500 if tier == "quick" else 15000
+    n = 3500 if tier == "quick" else 20000
     C.decision_tie(chk, n, n // 2)
 
     # rustc oracle with the real macro: sufficiency (the derive compiles) and non-excess (impl available for NoFmt)
     rng = chk.rng
-    ncase = 700 if tier == "quick" else 6000
+    ncase = 1400 if tier == "quick" else 8400
     shard = 700
     total_err = 0
     for s0 in range(0, ncase, shard):
